@@ -176,7 +176,7 @@ def _sweep_cases(max_nodes, max_len):
 
 
 def run(ctx):
-    nodes, length = ctx.pick((3, 3), (4, 4))
+    nodes, length = ctx.pick((4, 3), (5, 5))
     cases = _sweep_cases(nodes, length)
     ctx.extra["sweep_cases"] = len(cases)
     ctx.sweep(cases, check_case)
@@ -187,7 +187,7 @@ def run(ctx):
         f"/ handler+else) x every script of <= {length} actions over {{send None, send 1, throw ValueError(), throw KeyError "
         f"class, throw RequestStop(), throw PlanHalt class, close}} (de-duplicated by consumed prefix); 5 wrapper variants"
     )
-    ctx.hyp(_strategy, check_case, max_examples=ctx.pick(6000, 120000))
+    ctx.hyp(_strategy, check_case, max_examples=ctx.pick(5000, 120000))
 
 
 def replay(case):
